@@ -306,6 +306,12 @@ def form_oracles(ctx, st, A, kind, case, S, B, nets, g, scale):
 
 
 def one_case(ctx, case):
+    """one case; integer options handed over as objects outside every quantifier (np.uint8, 0-d arrays / tensors) and REFUSED by the
+    implementation are informational (argforms_a.tolerant, second audit X-1)"""
+    af.tolerant(ctx, _one_case, ctx, case)
+
+
+def _one_case(ctx, case):
     kind, n, h, a = case["kind"], case["n"], case["h"], case.get("a", 0)
     ctx.current_case = case
     A = af.Args(case.get("aseed"))
@@ -542,6 +548,10 @@ def fit_pairing_probe(ctx, rng, kind, forms=False):
 
 
 def fit_pairing_eval(ctx, case, am, ph):
+    af.tolerant(ctx, _fit_pairing_eval, ctx, case, am, ph)
+
+
+def _fit_pairing_eval(ctx, case, am, ph):
     kind, n, rows, strings = case["kind"], 3, case["rows"], case["bases"]
     A = af.Args(case.get("aseed"))
     E, pbs, nbs, k = case.get("epochs", 3), case.get("pos_batch_size", 4), case.get("neg_batch_size"), case.get("k", 1)
@@ -586,6 +596,10 @@ def fit_pairing_eval(ctx, case, am, ph):
 
 
 def history_probe(ctx, case):
+    af.tolerant(ctx, _history_probe, ctx, case)
+
+
+def _history_probe(ctx, case):
     """same state object, same sample/basis/space tensors: overwrite all parameters in place and compare the public gradients
     with the model at the NEW parameters (stale caches inside the gradient code would keep following the old ones)"""
     if ctx.driver is None:
